@@ -101,11 +101,17 @@ class W(object):
         self.ctx.note("error_codes_seen", {str(k): v for k, v in R.err_codes.items()})
 
     # byte-oriented enc/dec call helper: fn(out, &out_len, in, in_len, *rest) -> (ok, bytes)
-    def call_io(self, fn, data, rest, cap, pre=()):
+    def call_io(self, fn, data, rest, cap, pre=(), inplace=False):
+        """inplace: the output buffer is also the input buffer (as test_cp does for decryption)"""
         R = self.R
-        out = R.mem(cap, 0xAA)
+        out = R.mem(max(cap, len(data)), 0xAA)
         ol = R.cell(cap)
-        ip = R.bytes_in(data)
+        if inplace:
+            if data:
+                ctypes.memmove(out, bytes(data), len(data))
+            ip = out
+        else:
+            ip = R.bytes_in(data)
         try:
             res = R.call(fn, *(list(pre) + [out, ol, ip, len(data)] + list(rest)))
             n = R.rd_sz(ol)
@@ -117,7 +123,8 @@ class W(object):
         finally:
             R.free(out)
             R.free(ol)
-            R.free(ip)
+            if not inplace:
+                R.free(ip)
 
 
 # =====================================================================================================
@@ -181,11 +188,11 @@ class RsaEnc(W):
             return dict(pub=pub, prv=prv, n=n, e=e, d=d, k=(n.bit_length() + 7) // 8, bits=bits, nbits=n.bit_length())
         return self.case("cp_rsa_gen|bits=%d" % bits, [bits], f, budget=300)
 
-    def dec(self, ct, key, cap=None):
-        return self.call_io("cp_rsa_dec", ct, [key["prv"]], cap if cap is not None else key["k"] + 16)
+    def dec(self, ct, key, cap=None, inplace=False):
+        return self.call_io("cp_rsa_dec", ct, [key["prv"]], cap if cap is not None else key["k"] + 16, inplace=inplace)
 
-    def enc(self, pt, key, cap=None):
-        return self.call_io("cp_rsa_enc", pt, [key["pub"]], cap if cap is not None else key["k"] + 16)
+    def enc(self, pt, key, cap=None, inplace=False):
+        return self.call_io("cp_rsa_enc", pt, [key["pub"]], cap if cap is not None else key["k"] + 16, inplace=inplace)
 
     def run_key(self, key, heavy):
         ctx, R, rng = self.ctx, self.R, self.rng
@@ -224,6 +231,15 @@ class RsaEnc(W):
             ct = self.case("cp_rsa_enc|%s,%s" % (cls, pad), [key["bits"], L, kind], f)
             if ct:
                 last = (pt, ct)
+            if 1 <= L <= mx:
+                # output buffer == input buffer, for encryption and for decryption
+                def g_():
+                    good, c2, res = self.enc(pt, key, inplace=True)
+                    if ctx.check(good and len(c2) == k, ctx.cur_key + "|unexpected-error", {"len": L}):
+                        ctx.check(self.model_dec(c2, key) == pt, ctx.cur_key + "|model-decodes-differently", {"pt": pt.hex(), "ct": c2.hex()})
+                        g2, back, r2 = self.dec(c2, key, inplace=True)
+                        ctx.check(g2 and back == pt, "cp_rsa_dec|out==in,%s|round-trip" % pad, {"pt": pt.hex(), "got": back.hex(), "ok": g2})
+                self.case("cp_rsa_enc|out==in,%s" % pad, [key["bits"], L, kind], g_)
 
         # ---------------- model-built ciphertexts, valid and with crafted paddings
         def feed(cls, em, note=None):
@@ -403,6 +419,14 @@ class Pke(W):
             ct = self.case("cp_rabin_enc|%s" % cls, [bits, L, kind], f)
             if ct:
                 last = (pt, ct)
+            if 1 <= L <= mx:
+                def g_():
+                    good, c2, res = self.call_io("cp_rabin_enc", pt, [key["pub"]], cap, inplace=True)
+                    if ctx.check(good, ctx.cur_key + "|unexpected-error", {"len": L}):
+                        ctx.check(c2 == model_enc(pt), ctx.cur_key + "|ciphertext", {"pt": pt.hex(), "ct": c2.hex()})
+                        g2, back, r2 = self.call_io("cp_rabin_dec", c2, [key["prv"]], cap, inplace=True)
+                        ctx.check(g2 and back == pt, "cp_rabin_dec|out==in|round-trip", {"pt": pt.hex(), "got": back.hex(), "ok": g2})
+                self.case("cp_rabin_enc|out==in", [bits, L, kind], g_)
         if last:
             pt, ct = last
             muts = []
@@ -569,6 +593,20 @@ class Pke(W):
                 ctx.check(g2 and back == a and nf2, "cp_phpe_dec|%s|round-trip" % cls, {"m": hx(a), "got": hx(back) if back is not None else None})
                 cts[a] = c
             self.case("cp_phpe_enc|%s" % cls, [bits, hx(a)], f)
+
+            def g_():
+                # c == m for encryption, m == c for decryption
+                R.bn_put(c1, a)
+                res = R.call("cp_phpe_enc", c1, c1, pub)
+                if not ctx.check(self.ok(res), ctx.cur_key + "|unexpected-error"):
+                    return
+                c, used, sign, nf = R.bn_get(c1)
+                ctx.check(nf and holds(c, a), ctx.cur_key + "|ciphertext", {"m": hx(a), "c": hx(c)})
+                res = R.call("cp_phpe_dec", c1, c1, key["prv"])
+                back = R.bn_get(c1)
+                ctx.check(self.ok(res) and back[0] == a and back[3], "cp_phpe_dec|out==in,%s|round-trip" % cls,
+                          {"m": hx(a), "got": hx(back[0]) if back[0] is not None else None})
+            self.case("cp_phpe_enc|out==in,%s" % cls, [bits, hx(a)], g_)
         # model-built ciphertexts (independent of cp_phpe_enc)
         for a in vals[:8]:
             r = rng.randrange(2, n)
@@ -671,6 +709,19 @@ class Pke(W):
                 ctx.check(g2 and back == a and nf2, "cp_ghpe_dec|%s|round-trip" % cls, {"m": hx(a), "got": hx(back) if back is not None else None})
                 cts[a] = c
             self.case("cp_ghpe_enc|%s" % cls, [bits, s, hx(a)], f)
+
+            def g_():
+                R.bn_put(c1, a)
+                res = R.call("cp_ghpe_enc", c1, c1, pub, s)
+                if not ctx.check(self.ok(res), ctx.cur_key + "|unexpected-error"):
+                    return
+                c, used, sign, nf = R.bn_get(c1)
+                ctx.check(nf and holds(c, a), ctx.cur_key + "|ciphertext", {"m": hx(a), "c": hx(c)})
+                res = R.call("cp_ghpe_dec", c1, c1, pub, prv, s)
+                back = R.bn_get(c1)
+                ctx.check(self.ok(res) and back[0] == a and back[3], "cp_ghpe_dec|out==in,%s|round-trip" % cls,
+                          {"m": hx(a), "got": hx(back[0]) if back[0] is not None else None})
+            self.case("cp_ghpe_enc|out==in,%s" % cls, [bits, s, hx(a)], g_)
         ks_ = list(cts)
         for _ in range(min(8, len(ks_) ** 2)):
             a, b = rng.choice(ks_), rng.choice(ks_)
@@ -743,6 +794,19 @@ class Pke(W):
                         self.observe("%s is deterministic (same ciphertext for the same plaintext)" % fn)
                     cts[a] = c
                 self.case("%s|%s" % (fn, cls), [sbits, nbits, hx(a)], f)
+
+                def h_():
+                    R.bn_put(c1, a)
+                    res = R.call(fn, c1, c1, k_)
+                    if not ctx.check(self.ok(res), ctx.cur_key + "|unexpected-error"):
+                        return
+                    c, used, sign, nf = R.bn_get(c1)
+                    ctx.check(nf and holds(c, a), ctx.cur_key + "|ciphertext", {"m": hx(a), "c": hx(c)})
+                    res = R.call("cp_shpe_dec", c1, c1, key["prv"])
+                    back = R.bn_get(c1)
+                    ctx.check(self.ok(res) and back[0] == a and back[3], "cp_shpe_dec|out==in,%s|round-trip" % cls,
+                              {"m": hx(a), "got": hx(back[0]) if back[0] is not None else None})
+                self.case("%s|out==in,%s" % (fn, cls), [sbits, nbits, hx(a)], h_)
                 if fn == "cp_shpe_enc" and a in cts:
                     # encrypt again to see whether any randomness enters the ciphertext
                     def g_():
@@ -990,6 +1054,8 @@ class EcKa(W):
             res = self.case("cp_ecies_enc|%s" % cls, [cname, L, kind], lambda: self.ecies_round(pt, cap, d, cls))
             if res:
                 last = (pt, res[0], res[1], cap)
+            if L:
+                self.case("cp_ecies_enc|out==in", [cname, L, kind], lambda: self.ecies_round(pt, cap, d, "out==in", inplace=True))
         if last is None:
             return
         pt, ct, Rp, cap = last
@@ -1032,10 +1098,15 @@ class EcKa(W):
         if len(pt) > 16:
             self.case("cp_ecies_dec|capacity-too-small", [cname, len(pt)], small)
 
-    def ecies_dec(self, ct, Rp, cap):
+    def ecies_dec(self, ct, Rp, cap, inplace=False):
         R = self.R
         R.pt_put(self.T, Rp)
-        out, ol, ip = R.mem(cap, 0xAA), R.cell(cap), R.bytes_in(ct)
+        out, ol = R.mem(max(cap, len(ct)), 0xAA), R.cell(cap)
+        if inplace:
+            ctypes.memmove(out, ct, len(ct))
+            ip = out
+        else:
+            ip = R.bytes_in(ct)
         try:
             res = R.call("cp_ecies_dec", out, ol, self.T, ip, len(ct), self.d1)
             good = self.ok(res)
@@ -1047,13 +1118,14 @@ class EcKa(W):
         finally:
             R.free(out)
             R.free(ol)
-            R.free(ip)
+            if not inplace:
+                R.free(ip)
 
-    def ecies_round(self, pt, cap, d, cls):
+    def ecies_round(self, pt, cap, d, cls, inplace=False):
         ctx, R = self.ctx, self.R
         E, F = R.EC, R.FCv
         L = len(pt)
-        good, ct, res = self.call_io("cp_ecies_enc", pt, [self.Q1], cap, pre=[self.T])
+        good, ct, res = self.call_io("cp_ecies_enc", pt, [self.Q1], cap, pre=[self.T], inplace=inplace)
         if not ctx.check(good, ctx.cur_key + "|unexpected-error", {"len": L}):
             return None
         Rp = R.pt(self.T)
@@ -1063,7 +1135,7 @@ class EcKa(W):
         P = F.mul(d, Rp)
         ek, mk, size = self.ecies_key(P)
         ctx.check(ct[-32:] == hmac256(mk, ct[:-32]), ctx.cur_key + "|tag", {"x": hx(P[0])})
-        g2, back = self.ecies_dec(ct, Rp, cap)
+        g2, back = self.ecies_dec(ct, Rp, cap, inplace=inplace)
         ctx.check(g2 and back == pt, "cp_ecies_dec|%s|round-trip" % cls, {"pt": pt.hex(), "got": back.hex(), "ok": g2})
         return ct, Rp
 
@@ -1198,6 +1270,9 @@ class Pair(W):
                     ctx.check(cprt.xor(ct[hdr:], pad) == pt, ctx.cur_key + "|ciphertext", {"ct": ct.hex()})
                     g2, back, r2 = self.call_io("cp_ibe_dec", ct, [prv], cap)
                     ctx.check(g2 and back == pt, "cp_ibe_dec|len-ok|round-trip", {"pt": pt.hex(), "got": back.hex(), "ok": g2})
+                    # decryption in place (encryption in place is unsupported: the point header overwrites the input)
+                    g3, back3, r3 = self.call_io("cp_ibe_dec", ct, [prv], cap, inplace=True)
+                    ctx.check(g3 and back3 == pt, "cp_ibe_dec|out==in|round-trip", {"pt": pt.hex(), "got": back3.hex(), "ok": g3})
                     return ct
                 ct = self.case("cp_ibe_enc|%s" % cls, [cname, len(ident), L, kind], f)
                 if ct:
